@@ -8,6 +8,12 @@ PY = "/venv/bin/python"
 
 # id -> (technique, level text, level note, design ref)
 CHECKS = {
+    "C17": (
+        "Hypothesis over compositions of whole-table transformations with metamorphic oracles (involution, idempotence, sub-grid/only-empties-vanish, span rectangle map, CSV round trip) read through an independent lxml expansion",
+        "Generated run-length-encoded tables (ragged, styled empties, trailing repeated empties, spans) go through up to 6 steps of transpose-twice, rstrip, optimize_width, set_span/del_span and CSV export/import; each step is judged against the independent before/after matrices, plus lint and live-vs-fresh-parse equality.",
+        "Emptiness is the documented (lenient) one; CSV compared in CSV-canonical form; area transposition only on square areas; tables with spans are not transposed.",
+        "DESIGN.md 3/C17",
+    ),
     "C08": (
         "Hypothesis over (table state, getter, coordinates, mutation of the result) with the grid model as oracle for address/content and byte-equality of serialisations as oracle for detachment",
         "Each getter is called on generated run-length-encoded tables (after cache-warming reads and edits) with coordinates inside, at the edge of and outside the populated area; stamped coordinates and content are compared with the grid model, expanding getters must drop repeat counts, and a generated mutation of one returned object must leave the table and all other returned objects byte-identical where the docstring promises copies.",
